@@ -40,6 +40,17 @@ struct UnitToml {
     /// generated-source files: path relative to scratch build OUT_DIR (prost)
     #[serde(default)]
     generated_root: Option<String>,
+    /// R20: `*x = v` (x a plain identifier) becomes `x.vx_store(v)`: a DerefMut store through a lock guard whose stand-in
+    /// type implements `vx_store`.  If `x` is an ordinary `&mut T` the rewritten text does not compile => undecided.
+    #[serde(default)]
+    deref_store: bool,
+    /// R21: `X.map_or_else(D, |p| B)` becomes `match X { None => D(), Some(p) => B }` (the definition of the std combinator)
+    #[serde(default)]
+    expand_map_or_else: bool,
+    /// R22: a chain of closure-free std adapter calls, e.g. `into_values().collect()`, is renamed to ONE stand-in method
+    /// (whose specification states the std semantics of the chain; trusted)
+    #[serde(default)]
+    chainmap: BTreeMap<String, String>,
 }
 
 #[derive(Deserialize, Debug, Clone)]
@@ -261,6 +272,14 @@ struct Rewriter<'a> {
     erase_args_of: BTreeSet<String>,
     rules: BTreeSet<String>,
     keep_derives: BTreeSet<String>,
+    deref_store: bool,
+    expand_map_or_else: bool,
+    chainmap: Vec<(Vec<String>, String)>,
+}
+
+/// "a().b()" -> ["a", "b"]
+fn parse_chain(s: &str) -> Vec<String> {
+    s.split('.').map(|p| p.trim().trim_end_matches("()").to_string()).filter(|p| !p.is_empty()).collect()
 }
 
 fn is_tracing_macro(p: &syn::Path) -> bool {
@@ -696,6 +715,56 @@ impl<'a> VisitMut for Rewriter<'a> {
             }
         }
         visit_mut::visit_expr_mut(self, e);
+        // R20: store through a guard
+        if self.deref_store {
+            if let syn::Expr::Assign(a) = e {
+                if let syn::Expr::Unary(u) = &*a.left {
+                    if matches!(u.op, syn::UnOp::Deref(_)) {
+                        if let syn::Expr::Path(p) = &*u.expr {
+                            if p.path.get_ident().is_some() {
+                                let (x, v) = (p.clone(), (*a.right).clone());
+                                *e = syn::parse_quote!(#x.vx_store(#v));
+                                self.rules.insert("R20".into());
+                            }
+                        }
+                    }
+                }
+            }
+        }
+        // R21: map_or_else
+        if self.expand_map_or_else {
+            if let syn::Expr::MethodCall(m) = e {
+                if m.method == "map_or_else" && m.args.len() == 2 {
+                    if let (syn::Expr::Path(d), syn::Expr::Closure(c)) = (&m.args[0], &m.args[1]) {
+                        if c.inputs.len() == 1 {
+                            let (recv, d, pat, body) = ((*m.receiver).clone(), d.clone(), c.inputs[0].clone(), (*c.body).clone());
+                            *e = syn::parse_quote!(match (#recv) { None => #d(), Some(#pat) => #body });
+                            self.rules.insert("R21".into());
+                        }
+                    }
+                }
+            }
+        }
+        // R22: chainmap (argument-free method chains only)
+        if !self.chainmap.is_empty() {
+            for (chain, target) in self.chainmap.clone() {
+                let mut cur: &syn::Expr = e;
+                let mut ok = true;
+                for name in chain.iter().rev() {
+                    match cur {
+                        syn::Expr::MethodCall(m) if m.method == name.as_str() && m.args.is_empty() && m.turbofish.is_none() => cur = &*m.receiver,
+                        _ => { ok = false; break; }
+                    }
+                }
+                if ok {
+                    let recv = cur.clone();
+                    let t = syn::Ident::new(&target, Span::call_site());
+                    *e = syn::parse_quote!(#recv.#t());
+                    self.rules.insert("R22".into());
+                    break;
+                }
+            }
+        }
         // R15 (after visiting children, so nested `?` are handled innermost first)
         if self.desugar_try {
             if let syn::Expr::Try(t) = e {
@@ -1210,6 +1279,9 @@ fn main() {
             erase_args_of: spec.erase_args_of.iter().cloned().collect(),
             rules: BTreeSet::new(),
             keep_derives: spec.keep_derives.iter().cloned().collect(),
+            deref_store: unit_toml.deref_store,
+            expand_map_or_else: unit_toml.expand_map_or_else,
+            chainmap: unit_toml.chainmap.iter().map(|(k, v)| (parse_chain(k), v.trim_end_matches("()").to_string())).collect(),
         };
         let extra_attrs: Vec<syn::Attribute> = spec
             .extra_attrs
